@@ -30,12 +30,12 @@ package main
 // that mapping and this translator are part of the trusted base.
 
 import (
-	"path/filepath"
 	"fmt"
 	"go/ast"
 	"go/constant"
 	"go/token"
 	"go/types"
+	"path/filepath"
 	"sort"
 	"strings"
 )
@@ -263,21 +263,21 @@ func fnZero(k string) string {
 // ---------------------------------------------------------------- translator state
 
 type lvar struct {
-	name   string
-	kind   string
-	fields map[string]*lvar // struct locals: one Gallina local per field
-	forder []string
-	elemOf  types.Object // loop index variable: the slice it indexes
-	elem    string       // ... and the Gallina name of the current element
-	rangeOf string       // range index variable: the text of the ranged expression (X[i] is then the element)
-	isState bool         // an out-parameter of a void function
-	aliased bool         // a slice local that is used other than by index, len, range and return (element stores would be shared)
-	nilFlag *lvar        // a map local declared without a value (nil): the boolean local that says it has been made since
-	nilUnknown bool      // ... and it was assigned the result of a call: whether it is nil is not tracked any more
-	origin  *aliasOrigin // write-back mode: where this variable's value was taken from
-	sink    *lvar        // a json.Encoder local: the writer local it writes to
-	putVar  *lvar        // cursor mode: a map variable that walks down the tree it updates: the function that rebuilds the root from it
-	idxVar  *lvar        // cursor mode: a map variable declared without a value: the position at which it was last appended to a list
+	name       string
+	kind       string
+	fields     map[string]*lvar // struct locals: one Gallina local per field
+	forder     []string
+	elemOf     types.Object // loop index variable: the slice it indexes
+	elem       string       // ... and the Gallina name of the current element
+	rangeOf    string       // range index variable: the text of the ranged expression (X[i] is then the element)
+	isState    bool         // an out-parameter of a void function
+	aliased    bool         // a slice local that is used other than by index, len, range and return (element stores would be shared)
+	nilFlag    *lvar        // a map local declared without a value (nil): the boolean local that says it has been made since
+	nilUnknown bool         // ... and it was assigned the result of a call: whether it is nil is not tracked any more
+	origin     *aliasOrigin // write-back mode: where this variable's value was taken from
+	sink       *lvar        // a json.Encoder local: the writer local it writes to
+	putVar     *lvar        // cursor mode: a map variable that walks down the tree it updates: the function that rebuilds the root from it
+	idxVar     *lvar        // cursor mode: a map variable declared without a value: the position at which it was last appended to a list
 }
 
 type extern struct {
@@ -286,44 +286,44 @@ type extern struct {
 }
 
 type fnTr struct {
-	p       *pkgInfo
-	vars    map[types.Object]*gvar
-	fn      *ast.FuncDecl
-	locals  map[types.Object]*lvar
-	used    map[string]int
-	guards  []string
-	fresh   int
-	pairMemo int // 0 unknown, 1 pair result, 2 not
-	curRest  []ast.Stmt // the statements that follow the one being translated, in its list
-	topEnd   func() string // what falling off the end of the function body is
-	qname    string        // the function being translated, Recv.Name for methods
-	cursor   bool          // cursor mode (cursorFuncs): see cursor.go
-	wb       bool       // write-back mode (inout.go, wb.go): in-place updates of a value tree
-	nextRebuild *rebuildSpec // consumed by the next loop(): the collection it ranges over is rebuilt
-	wbAfterCall []*lvar      // set by selfArgs: the locals that received the in-out results of the recursive call
-	lensRet  bool            // the first result may be part of the tree below lensParam: it is returned with a put-back function
-	lensParam *lvar
-	io       *inoutInfo
-	aliases  map[types.Object][]types.Object
-	sumJoin  bool       // join mode (see branching): no duplication of what follows a branching statement
-	lenient  bool       // case bodies of type switches that leave the fragment become Crash (see tryBody)
+	p            *pkgInfo
+	vars         map[types.Object]*gvar
+	fn           *ast.FuncDecl
+	locals       map[types.Object]*lvar
+	used         map[string]int
+	guards       []string
+	fresh        int
+	pairMemo     int           // 0 unknown, 1 pair result, 2 not
+	curRest      []ast.Stmt    // the statements that follow the one being translated, in its list
+	topEnd       func() string // what falling off the end of the function body is
+	qname        string        // the function being translated, Recv.Name for methods
+	cursor       bool          // cursor mode (cursorFuncs): see cursor.go
+	wb           bool          // write-back mode (inout.go, wb.go): in-place updates of a value tree
+	nextRebuild  *rebuildSpec  // consumed by the next loop(): the collection it ranges over is rebuilt
+	wbAfterCall  []*lvar       // set by selfArgs: the locals that received the in-out results of the recursive call
+	lensRet      bool          // the first result may be part of the tree below lensParam: it is returned with a put-back function
+	lensParam    *lvar
+	io           *inoutInfo
+	aliases      map[types.Object][]types.Object
+	sumJoin      bool // join mode (see branching): no duplication of what follows a branching statement
+	lenient      bool // case bodies of type switches that leave the fragment become Crash (see tryBody)
 	lenientDepth int
-	curS     string     // in join mode: the state type S of the `ctl S A` a jump currently produces
-	parents  map[ast.Node]ast.Node
-	tables  map[types.Object]string
-	externs *[]extern
-	structs map[string]*types.Struct
-	resKind []string // kinds of the results
-	inLoop  bool
-	loopEnd func() string
-	breakEnd func() string // what `break` jumps to (nil: not allowed here)
-	escaped map[types.Object]bool
-	state   []*lvar          // out-parameters (pointer / mutated map parameters) of a void function, in parameter order
-	stateAt map[int]*lvar    // parameter position -> state variable
-	structAt map[int]*lvar   // parameter position -> struct-pointer parameter (its fields are state)
-	retPat  string           // set by selfArgs: the pattern that receives the state a recursive call returns
-	self    *types.Func      // the function being translated (recursion)
-	recurs  bool
+	curS         string // in join mode: the state type S of the `ctl S A` a jump currently produces
+	parents      map[ast.Node]ast.Node
+	tables       map[types.Object]string
+	externs      *[]extern
+	structs      map[string]*types.Struct
+	resKind      []string // kinds of the results
+	inLoop       bool
+	loopEnd      func() string
+	breakEnd     func() string // what `break` jumps to (nil: not allowed here)
+	escaped      map[types.Object]bool
+	state        []*lvar       // out-parameters (pointer / mutated map parameters) of a void function, in parameter order
+	stateAt      map[int]*lvar // parameter position -> state variable
+	structAt     map[int]*lvar // parameter position -> struct-pointer parameter (its fields are state)
+	retPat       string        // set by selfArgs: the pattern that receives the state a recursive call returns
+	self         *types.Func   // the function being translated (recursion)
+	recurs       bool
 }
 
 func (t *fnTr) pos(n ast.Node) string { return t.p.fset.Position(n.Pos()).String() }
@@ -1012,18 +1012,22 @@ func (t *fnTr) wrap(mark int, body string) string {
 }
 
 var callTable = map[string]string{
-	"strconv.Itoa":      "go_itoa",
-	"strings.ToLower":   "to_lower",
-	"strings.HasPrefix": "go_has_prefix",
-	"strings.Split":     "go_split",
-	"strings.Index":     "go_index",
-	"strings.Replace":   "go_replace",
-	"strings.Join":      "go_join",
-	"strings.Trim":      "go_trim",
-	"bytes.TrimSuffix":  "go_trim_suffix",
-	"bytes.Count":       "bytes_count",
-	"bytes.Replace":     "bytes_replace",
-	"math.IsNaN":        "flt_is_nan",
+	"strconv.Itoa":       "go_itoa",
+	"strings.ToLower":    "to_lower",
+	"strings.HasPrefix":  "go_has_prefix",
+	"strings.Split":      "go_split",
+	"strings.Index":      "go_index",
+	"strings.Contains":   "go_contains",
+	"strings.HasSuffix":  "go_has_suffix",
+	"strings.TrimSuffix": "go_trim_suffix_s",
+	"strings.TrimPrefix": "go_trim_prefix",
+	"strings.Replace":    "go_replace",
+	"strings.Join":       "go_join",
+	"strings.Trim":       "go_trim",
+	"bytes.TrimSuffix":   "go_trim_suffix",
+	"bytes.Count":        "bytes_count",
+	"bytes.Replace":      "bytes_replace",
+	"math.IsNaN":         "flt_is_nan",
 }
 
 func (t *fnTr) call(x *ast.CallExpr) string {
@@ -1211,17 +1215,18 @@ func (t *fnTr) call(x *ast.CallExpr) string {
 }
 
 // extCall describes a call of another function / method of package mxj, which becomes a Section variable:
-//   one result            f : args -> T
-//   (T, error)            f : args -> res T
-//   no result, out-params f : args -> (the new values of the out-parameters)      (arguments &local)
-//   io.Reader arguments   f : args -> option (R * the readers afterwards), None = the callee panicked; R as above
-//                         except that (*T, error) is the pair (T * option err) and (T1, T2, error) the triple
+//
+//	one result            f : args -> T
+//	(T, error)            f : args -> res T
+//	no result, out-params f : args -> (the new values of the out-parameters)      (arguments &local)
+//	io.Reader arguments   f : args -> option (R * the readers afterwards), None = the callee panicked; R as above
+//	                      except that (*T, error) is the pair (T * option err) and (T1, T2, error) the triple
 type extCall struct {
 	term     string
-	results  []string // kinds of the Go results
-	outArgs  []*lvar  // locals passed by address, in parameter order
-	stateOut []*lvar  // reader locals passed to the callee (it consumes from them), in parameter order
-	rich     string   // the Gallina pattern kind of R for a call with stateOut: "pair" (v, err) / "triple" / "res" / "one"
+	results  []string       // kinds of the Go results
+	outArgs  []*lvar        // locals passed by address, in parameter order
+	stateOut []*lvar        // reader locals passed to the callee (it consumes from them), in parameter order
+	rich     string         // the Gallina pattern kind of R for a call with stateOut: "pair" (v, err) / "triple" / "res" / "one"
 	unbox    map[*lvar]bool // out-arguments that come back as a value and are unboxed into a map / slice local
 	optOut   bool           // writer / struct-pointer arguments: the callee's result is option (R * their new values), None = it panicked
 	lensArg  *lvar          // the callee returns part of this argument's tree together with a put-back function
@@ -2319,8 +2324,9 @@ func (t *fnTr) resultType() string {
 }
 
 // branching sequences a statement with alternative bodies (if / switch) with what follows it.
-//   mk(tr) builds the branching expression from the translation tr of each body;
-//   bodies are all alternative statement lists (a missing else / default counts as an empty body).
+//
+//	mk(tr) builds the branching expression from the translation tr of each body;
+//	bodies are all alternative statement lists (a missing else / default counts as an empty body).
 func (t *fnTr) branching(s ast.Stmt, rest []ast.Stmt, end func() string, bodies [][]ast.Stmt, mk func(tr func([]ast.Stmt) string) string) string {
 	// translate every body with its own scope of "escaped" structs
 	_, isSw := s.(*ast.SwitchStmt)
@@ -4149,9 +4155,10 @@ func (t *fnTr) storeThroughAssert(x *ast.AssignStmt, l *ast.IndexExpr, ta *ast.T
 // freezeCheck: the statement s stores / assigns the value of e somewhere.  When e is a map local M of this function,
 // M and the stored value are the same object in Go, so a later store into M would be seen through the other name, which
 // the translation (values, no heap) cannot express.  Accepted only when no such store can follow:
-//   (a) the statements after s in its list contain no store into M and end in a return, or
-//   (b) no store into M stands after s in the function text, and M is declared inside every loop that contains s
-//       (a fresh map in every iteration).
+//
+//	(a) the statements after s in its list contain no store into M and end in a return, or
+//	(b) no store into M stands after s in the function text, and M is declared inside every loop that contains s
+//	    (a fresh map in every iteration).
 func (t *fnTr) freezeCheck(s ast.Stmt, e ast.Expr) {
 	id, ok := unparen(e).(*ast.Ident)
 	if !ok {
@@ -5020,7 +5027,9 @@ func (t *fnTr) isIndexOnlyLoop(init *ast.AssignStmt, cond *ast.BinaryExpr, post 
 }
 
 // countingFor: for i := a; i < b; i++ { body }  (or i <= b) where the body assigns neither i nor anything b mentions.
-//   let i := a in for_loop fuel (fun state => if i < b then body' else Brk state) state
+//
+//	let i := a in for_loop fuel (fun state => if i < b then body' else Brk state) state
+//
 // body' ends every normal pass and every `continue` with i := i + 1; `break` is Brk.  The bound b is evaluated at
 // every test, as in Go; since nothing it mentions changes, b - a + 1 passes and the final failing test fit into the fuel
 // 2 + (b - a + 1) computed at loop entry (exhaustion = Crash, excluded by the theorems).
